@@ -335,6 +335,30 @@ pub async fn run(cx: &mut Ctx) {
                 crate::run::set_crumb(None);
                 if c.mode == 0 {
                     cx.probe("corruption-detected-at-open");
+                    // "Unaffected tables remain readable": a file belongs to one table; when the
+                    // open fails as a whole the tables the damage does not touch are unreadable too
+                    if names.len() >= 2 {
+                        let mut pc = cx.case.clone();
+                        pc.corruptions = vec![c.clone()];
+                        cx.violate(
+                            Violation::new(
+                                "C18",
+                                "unaffected-tables-unreadable",
+                                Some(ci),
+                                format!(
+                                    "{label}: detected when the database is opened, but the open fails as a whole ({}): none of the {} tables is readable, {} of them untouched",
+                                    crate::rng::cut(&e, 120),
+                                    names.len(),
+                                    names.len() - 1
+                                ),
+                            )
+                            .pin(pc),
+                        );
+                        if cx.stop_at_first {
+                            let _ = std::fs::remove_dir_all(&wroot);
+                            break;
+                        }
+                    }
                 } else {
                     cx.harness_error = Some(format!("pristine copy does not open: {e}"));
                     return;
